@@ -45,7 +45,7 @@ theorem first_block (M : Nat) (req : Request) (st : BlockState) (resp : Packet) 
     (rb2 : BlockValue)
     (hr : req.response = some resp) (hno : resp.getOption block2Num = none)
     (hsz : computeMessageSize resp = .ok size)
-    (hn : negotiate st.lastBlock2 size resp.payload.length M = .ok (some rb2)) :
+    (hn : negotiate st.lastBlock2 (size + tokenReserve resp) resp.payload.length M = .ok (some rb2)) :
     coreResponse M req st =
       match serveCached req rb2 resp with
       | (req', .ok true) => (req', { st with cachedResponse := some resp }, .ok true)
